@@ -10,8 +10,9 @@ def _nontrivial(rec):
         return False
 
 
-# The model mirrors /repo after the repairs 2fef2d7 (WithdrawalsBuilder: ledger order) and c263357 (VotingBuilder: ledger rank).
-# If either is reverted, the corpus witnesses w0-w3 disagree model<->implementation AND the judge reports fails:- on them
+# The model mirrors /repo after the repairs 2fef2d7 (WithdrawalsBuilder: ledger order), c263357 (VotingBuilder: ledger rank) and
+# ae86092 (TxInputsBuilder: a Plutus witness is emitted only under the input's current script hash).
+# If one is reverted, the corpus witnesses w0-w3 / w6 disagree model<->implementation AND the judge reports fails:- on them
 # (the fixed entries of known_findings.d/C10.json suppress nothing).
 CFG = {
     "level": "proof",
@@ -20,7 +21,7 @@ CFG = {
                   "sequences (any items, any insertion order, repeated and rejected calls) every redeemer of the built transaction "
                   "designates, under the ledger's pointer rules read off the body, exactly the item the caller attached it to; no two "
                   "redeemers share (tag, index); only script-locked items carry one; every permutation of calls on distinct items gives "
-                  "the same pointers. Three probe-confirmed defects are excluded as decidable known classes and refuted by witnesses, two "
+                  "the same pointers. Two probe-confirmed defects are excluded as decidable known classes and refuted by witnesses, three "
                   "further defects were repaired in /repo (the pre-repair behaviour is refuted by witnesses). The model is tied to the "
                   "compiled code by an exact differential run through the real TransactionBuilder::build_tx, and the Coq-extracted judge "
                   "(proved sound w.r.t. the statement) evaluates the statement on the body and redeemers re-read from the serialised transaction.",
@@ -31,9 +32,9 @@ CFG = {
                   "LinkedHashMap / slice::sort_by_key as sorted and insertion-ordered association lists; extraction (ExtrOcamlBasic) and the "
                   "OCaml/Rust glue. No axioms.",
     "theorems": ["C10_spend", "C10_mint", "C10_cert", "C10_reward", "C10_vote", "C10_propose", "C10_unique", "C10_only_script_items",
-                 "C10_full", "C10_order_irrelevant", "C10_distinct_items_no_stale", "C10_code_orders_are_ledger_orders", "C10_judge_sound", "C10_judge_known_narrow",
-                 "C10_unique_refuted_collateral", "C10_unique_refuted_stale", "C10_only_script_refuted_proposal",
-                 "C10_reward_legacy_refuted", "C10_vote_legacy_refuted"],
+                 "C10_full", "C10_order_irrelevant", "C10_code_orders_are_ledger_orders", "C10_judge_sound", "C10_judge_complete", "C10_judge_known_narrow", "C10_known_classes_on_calls",
+                 "C10_unique_refuted_collateral", "C10_only_script_refuted_proposal",
+                 "C10_reward_legacy_refuted", "C10_vote_legacy_refuted", "C10_stale_legacy_refuted"],
     "allowed_axioms": [],
     "compare": "exact",
     "nontrivial": _nontrivial,
@@ -60,8 +61,7 @@ CFG = {
         "the modelled key, and maps certificates / proposals read back from the body to case items through their serialised bytes",
     ],
     "assumptions": [
-        "known classes excluded from C10_spend / C10_unique: C10-collateral-plutus (the collateral builder holds a Plutus witness), "
-        "C10-stale-spend-witness (an input was re-added under another script hash while a Plutus witness stays registered under the first); "
+        "known classes excluded from C10_spend / C10_unique: C10-collateral-plutus (the collateral builder emits a Plutus redeemer); "
         "from the proposal part of C10_only_script_items: C10-proposal-redeemer-without-script",
         "scripts, datums, ex-units, withdrawal / deposit / input amounts and vote contents are not modelled (the harness varies them, zero "
         "included: they must not influence body items or pointers); mint quantities are modelled up to 'net quantity 0 = build error' "
